@@ -316,6 +316,10 @@ def rules(ctx):
     formulas.transition_counter_deltas(ctx, "R3")
     formulas.cluster_loops(ctx, "R1")
     inf_conversions(ctx, "R4")
+    # every vehicle type has its transition optimised and stored (shared with C16): set_next_day_transitions replaces the whole map
+    from .C16 import every_vehicle_type
+    for key_, tag_ in (("server::solve_instance", "R6.server"), ("internal::run", "R6.internal")):
+        every_vehicle_type(ctx, key_, tag_)
     # R5: optimisation never worsens
     objective.level_order(ctx, "R5.transition-objective", TLS + "::transition_objective",
                           ["MaintenanceViolationIndicator", "MaintenanceCounterIndicator"],
